@@ -2,7 +2,11 @@
 //! scenario scripts against the real `tiny_std::thread::spawn` / `JoinHandle::join` / `Drop`.
 //!
 //! Script (stdin), one batch = the threads that are live together:
-//!   t <id> <ret|panic|panic_e|panic_o|panic_d|panic_m> <d_us> <class> <join|drop|dropnow> <d2_us>      (id < 64, class 0..14)
+//!   t <id> <ret|panic|panic_e|panic_o|panic_d|panic_m|deep|deep_panic> <d_us> <class> <join|drop|dropnow> <d2_us>      (id < 64, class 0..14)
+//! `deep` / `deep_panic` in place of ret / panic: the closure first touches the 24 pages just below the mapping its stack lives in
+//! (through read(/dev/zero, addr, 8): EFAULT and no effect where the kernel will not map memory on demand; only when the window is
+//! unmapped), marker G (aux = pages that could be touched), then returns / panics.  After every batch the mapping list is compared
+//! with the one before it, range by range: `mapdiff + <start> <end> <perms>` / `mapdiff - ...` records.
 //! WHERE the closure panics: `panic` a plain panic!; `panic_e` / `panic_o` / `panic_d` inside an argument of tiny-std's
 //! eprintln! / println! / dbg! (a Display / Debug impl that panics while it is being printed: the thread holds the
 //! library's stderr / stdout print lock at that moment, and the panic handler runs with it held); `panic_m` while holding
@@ -320,6 +324,142 @@ fn maps() -> (u64, u64) {
     }
 }
 
+/// `start end perms` of every mapping, parsed out of a /proc/self/maps image
+fn parse_map_line(line: &[u8]) -> Option<(usize, usize, u8)> {
+    let mut i = 0;
+    let mut a = 0usize;
+    while i < line.len() && line[i] != b'-' {
+        a = a.checked_mul(16)?.checked_add((line[i] as char).to_digit(16)? as usize)?;
+        i += 1;
+    }
+    i += 1;
+    let mut b = 0usize;
+    while i < line.len() && line[i] != b' ' {
+        b = b.checked_mul(16)?.checked_add((line[i] as char).to_digit(16)? as usize)?;
+        i += 1;
+    }
+    i += 1;
+    let mut p = 0u8;
+    let mut k = 0;
+    while k < 4 && i + k < line.len() {
+        if line[i + k] != b'-' {
+            p |= 1 << k;
+        }
+        k += 1;
+    }
+    Some((a, b, p))
+}
+
+const MAXMAPS: usize = 512;
+static mut MAPS_BEFORE: [(usize, usize, u8); MAXMAPS] = [(0, 0, 0); MAXMAPS];
+static mut MAPS_BEFORE_N: usize = 0;
+static mut MAPS_AFTER: [(usize, usize, u8); MAXMAPS] = [(0, 0, 0); MAXMAPS];
+
+unsafe fn snapshot_maps(into: &mut [(usize, usize, u8); MAXMAPS]) -> usize {
+    let m = slurp(b"/proc/self/maps\0");
+    let mut n = 0;
+    for line in m.split(|c| *c == b'\n') {
+        if let Some(x) = parse_map_line(line) {
+            if n < MAXMAPS && x.1 > x.0 {
+                into[n] = x;
+                n += 1;
+            }
+        }
+    }
+    n
+}
+
+fn hexnum(mut n: usize) {
+    let mut buf = [0u8; 16];
+    let mut i = 16;
+    loop {
+        i -= 1;
+        buf[i] = b"0123456789abcdef"[n & 15];
+        n >>= 4;
+        if n == 0 {
+            break;
+        }
+    }
+    s(" ");
+    s(core::str::from_utf8(&buf[i..]).unwrap_or("?"));
+}
+
+/// the mapping list after the batch against the one before it: every range that is there now and was not (`mapdiff + ..`),
+/// and every range that was and is not (`mapdiff - ..`), whoever created or removed it
+unsafe fn print_map_diff() {
+    let na = snapshot_maps(&mut MAPS_AFTER);
+    let nb = MAPS_BEFORE_N;
+    for (list_a, n_a, list_b, n_b, sign) in [(&MAPS_AFTER, na, &MAPS_BEFORE, nb, " +"), (&MAPS_BEFORE, nb, &MAPS_AFTER, na, " -")] {
+        for x in list_a[..n_a].iter() {
+            if !list_b[..n_b].iter().any(|y| y == x) {
+                s("mapdiff");
+                s(sign);
+                hexnum(x.0);
+                hexnum(x.1);
+                num(x.2 as u64);
+                s("\n");
+            }
+        }
+    }
+}
+
+/// A thread that needs a little more stack than it was given, minus the crash: touch the `pages` pages just below the bottom of the
+/// mapping this thread's stack lives in, top down, through `read(/dev/zero, addr, 8)` — where nothing is mapped and nothing can be
+/// mapped on demand the kernel answers EFAULT and nothing happens; where the stack mapping may grow (MAP_GROWSDOWN) it grows.
+/// Only attempted when /proc/self/maps shows the whole window as unmapped.  -> pages touched successfully (0x1000 + that if the window was not free)
+static mut DEEPBUF: [u8; 1 << 16] = [0; 1 << 16];
+fn touch_below_stack(pages: usize) -> usize {
+    let local = 0u8;
+    let here = &local as *const u8 as usize;
+    unsafe {
+        let fd = sys4(SYS_OPEN, b"/proc/self/maps\0".as_ptr() as usize, 0, 0, 0);
+        if fd < 0 {
+            return 0x2000;
+        }
+        let mut len = 0;
+        loop {
+            let n = sys4(SYS_READ, fd as usize, DEEPBUF.as_mut_ptr().add(len) as usize, DEEPBUF.len() - len, 0);
+            if n <= 0 {
+                break;
+            }
+            len += n as usize;
+        }
+        sys4(SYS_CLOSE, fd as usize, 0, 0, 0);
+        let mut bottom = 0;
+        for line in DEEPBUF[..len].split(|c| *c == b'\n') {
+            if let Some((a, b, _)) = parse_map_line(line) {
+                if a <= here && here < b {
+                    bottom = a;
+                }
+            }
+        }
+        if bottom == 0 {
+            return 0x2000;
+        }
+        let lo = bottom - pages * 4096;
+        for line in DEEPBUF[..len].split(|c| *c == b'\n') {
+            if let Some((a, b, _)) = parse_map_line(line) {
+                if a < bottom && b > lo {
+                    return 0x1000;
+                }
+            }
+        }
+        let zero = sys4(SYS_OPEN, b"/dev/zero\0".as_ptr() as usize, 0, 0, 0);
+        if zero < 0 {
+            return 0x2000;
+        }
+        let mut touched = 0;
+        while touched < pages {
+            if sys4(SYS_READ, zero as usize, bottom - (touched + 1) * 4096, 8, 0) != 8 {
+                break;
+            }
+            touched += 1;
+        }
+        sys4(SYS_CLOSE, zero as usize, 0, 0, 0);
+        touched
+    }
+}
+
 // ------------------------------------------------------------------ result type classes
 
 trait Val: Send + 'static + Sized {
@@ -588,7 +728,8 @@ impl core::fmt::Debug for Boom {
     }
 }
 
-/// panic site: 0 the closure returns, 1 plain panic!, 2 inside eprintln!, 3 inside println!, 4 inside dbg!, 5 holding own lock guards
+/// panic site: 0 the closure returns, 1 plain panic!, 2 inside eprintln!, 3 inside println!, 4 inside dbg!, 5 holding own lock guards;
+/// 6 / 7: the closure first touches memory just below its stack mapping (`touch_below_stack`), then returns / panics plainly
 fn spawn_one<T: Val>(batch: usize, id: usize, panics: u8, d: usize, gate: bool) -> tiny_std::Result<JoinHandle<T>> {
     let tok = token(batch, id);
     tiny_std::thread::spawn(move || {
@@ -600,7 +741,11 @@ fn spawn_one<T: Val>(batch: usize, id: usize, panics: u8, d: usize, gate: bool) 
         run_children(batch, id);
         // a plain (non-atomic) memory effect: must be visible to whoever joins this thread
         unsafe { EFFECT.0[id].get().write_volatile(tok) };
-        if panics != 0 {
+        if panics >= 6 {
+            // `deep` / `deep_panic`: a thread that reaches a little below its stack mapping before it returns / panics
+            mark(b'G', id, touch_below_stack(24));
+        }
+        if panics != 0 && panics != 6 {
             mark(b'P', id, panics as usize);
             match panics {
                 2 => tiny_std::eprintln!("{}", Boom),
@@ -811,6 +956,7 @@ fn run_batch(batch: usize, specs: &[Spec]) {
     BOMB_FORGOT.store(0, Ordering::Relaxed);
     DOUBLE_FREES.store(0, Ordering::Relaxed);
     measure("before");
+    unsafe { MAPS_BEFORE_N = snapshot_maps(&mut MAPS_BEFORE) };
     HEAP_LOG.store(1, Ordering::Relaxed);
     mark(b'b', batch, specs.len());
     run_children(batch, MAIN);
@@ -823,6 +969,7 @@ fn run_batch(batch: usize, specs: &[Spec]) {
     mark(b'e', batch, 0);
     HEAP_LOG.store(0, Ordering::Relaxed);
     measure("after");
+    unsafe { print_map_diff() };
     for sp in specs {
         let st = SPAWN_ST[sp.id].load(Ordering::Relaxed);
         if st == 1 {
@@ -967,6 +1114,8 @@ pub fn main() -> i32 {
                         b"panic_o" => 3,
                         b"panic_d" => 4,
                         b"panic_m" => 5,
+                        b"deep" => 6,
+                        b"deep_panic" => 7,
                         _ => return None,
                     };
                     let d = parse_usize(f[2]?)?;
